@@ -85,14 +85,14 @@ theorem relF_cases {α : Type} {d : Bytes} {e0 : Err} {lat drop : Bool} {E : SB 
     (∃ v rest, res = .ok v ∧ m = .ok (v, rest) ∧ GoodF d e0 lat s2 ∧ view d s2 = rest) ∨
     (∃ e, res = .error e ∧ m = .error e ∧ GoodF d e0 lat s2 ∧ E s2) ∨
     (res = .error e0 ∧ GoodF d e0 true s2) ∨
-    (drop = true ∧ GoodF d e0 true s2) := by
+    (drop = true ∧ res = .error .malformed ∧ GoodF d e0 true s2 ∧ HashEdge d s2 ∧ NotGtF d s2) := by
   rcases hr with a | b | c
   · unfold RelA at a
     cases m with
     | ok p => obtain ⟨v, rest⟩ := p; exact Or.inl ⟨v, rest, a.1, rfl, a.2.1, a.2.2⟩
     | error e => exact Or.inr (Or.inl ⟨e, a.1, rfl, a.2.1, a.2.2⟩)
   · exact Or.inr (Or.inr (Or.inl b))
-  · exact Or.inr (Or.inr (Or.inr c))
+  · exact Or.inr (Or.inr (Or.inr ⟨c.1, c.2.1, c.2.2.1, c.2.2.2.1, c.2.2.2.2⟩))
 
 theorem inComposite_ne (e : Err) (he : e ≠ .eof) : e.inComposite = e := by
   cases e <;> first | rfl | exact (he rfl).elim
@@ -113,7 +113,10 @@ theorem relF_mapErrB {α : Type} {d : Bytes} {e0 : Err} (he0 : e0 ≠ .eof) {lat
     simp only [Except.mapError, inComposite_ne e0 he0]
     exact ⟨trivial, b.2⟩
   · right; right
-    exact ⟨c.1, c.2⟩
+    unfold FltM mapErrB at *
+    simp only []
+    rw [c.2.1]
+    exact ⟨c.1, rfl, c.2.2⟩
 
 section
 variable {d : Bytes} {e0 : Err} {src : Source} (h : FaultyOver d e0 src) {sf : Nat} (hsf : d.length + 2 ≤ sf)
@@ -236,7 +239,7 @@ theorem refF_arrLoop (fuel : Nat) (ih : RefAtF d e0 src sf fuel) :
       intro o
       have := C01L.nextIntsM_le o ints acc hints
       cases o <;> simpa [C01L.nextIntsM] using this
-    rcases relF_cases RO with ⟨o, r, rfl, hm2, g3, v3⟩ | ⟨e, rfl, hm2, g3, _⟩ | ⟨rfl, gl⟩ | ⟨_, gl⟩
+    rcases relF_cases RO with ⟨o, r, rfl, hm2, g3, v3⟩ | ⟨e, rfl, hm2, g3, _⟩ | ⟨rfl, gl⟩ | ⟨_, rfl, gl, he, hn⟩
     · rw [hm2]
       simp only []
       split
@@ -248,14 +251,8 @@ theorem refF_arrLoop (fuel : Nat) (ih : RefAtF d e0 src sf fuel) :
       exact relF_err s3 _ g3 trivial
     · simp only []
       exact relF_flt s3 _ gl
-    · -- the element came back behind a dropped error: go on with the error latched
-      cases ro with
-      | error e => simp only []; exact relF_lat _ _ gl
-      | ok o =>
-        simp only []
-        split
-        · exact relF_lat _ _ gl
-        · exact relF_lat _ _ (relF_goodT (ihAL true depth (o :: acc) _ s3 gl (hnext o)))
+    · simp only []
+      exact relF_m s3 _ gl he hn
   · generalize skipWhiteSpace src sf s = q at he gl
     obtain ⟨s1, e1⟩ := q
     simp only [] at he gl
@@ -503,7 +500,7 @@ theorem dictAfterKeyF (acc : List (Bytes × Obj)) (key : Bytes) (lat : Bool) (s1
   rw [hv2] at RO
   generalize obj s2 = q at RO
   obtain ⟨s3, ro⟩ := q
-  rcases relF_cases RO with ⟨val, r3, rfl, hmo, g3, v3⟩ | ⟨e, rfl, hmo, g3, _⟩ | ⟨rfl, gl⟩ | ⟨_, gl⟩
+  rcases relF_cases RO with ⟨val, r3, rfl, hmo, g3, v3⟩ | ⟨e, rfl, hmo, g3, _⟩ | ⟨rfl, gl⟩ | ⟨_, rfl, gl, he, hn⟩
   · rw [hmo]
     simp only []
     rw [← v3]
@@ -513,11 +510,8 @@ theorem dictAfterKeyF (acc : List (Bytes × Obj)) (key : Bytes) (lat : Bool) (s1
     exact relF_err s3 _ g3 trivial
   · simp only []
     exact relF_flt s3 _ gl
-  · cases ro with
-    | error e => simp only []; exact relF_lat _ _ gl
-    | ok val =>
-      simp only []
-      exact relF_lat _ _ (relF_goodT (dictAfterValF (mloop := mloop) h hsf hloop acc key true val s3 gl))
+  · simp only []
+    exact relF_m s3 _ gl he hn
 
 end
 
@@ -529,9 +523,12 @@ def objAfterDictBuf (src : Source) (sf : Nat) (dd : List (Bytes × Obj)) (s2 : S
   match hardErr e3 with
   | some e => (s3, .error e)
   | none =>
-    let (s4, buf6, _) := peekN src 6 s3
-    if startsWith buf6 kw_stream then readStreamHeadBuf src s4
-    else (s4, .ok (.dict dd))
+    let (s4, buf6, e6) := peekN src 6 s3
+    match e6 with
+    | some e => (s4, .error e)
+    | none =>
+      if startsWith buf6 kw_stream then readStreamHeadBuf src s4
+      else (s4, .ok (.dict dd))
 
 /-- the model's side -/
 def objAfterDictM (dd : List (Bytes × Obj)) (r : Bytes) : Except Err (Obj × Bytes) :=
@@ -568,12 +565,10 @@ theorem readStreamHeadF {lat : Bool} (s : SB) (gs : GoodF d e0 lat s) :
 
 include hsf
 
-/-- `ReadObject` behind a dictionary on a failing reader.  The one place of the parser where a
-    wrong VALUE can come back without an error: `buf, _ = s.PeekN(6)` — when the reader fails while
-    the window is filled up to the end of the keyword `stream`, the dictionary of the stream is
-    returned as a plain dictionary (with the error latched). -/
+/-- `ReadObject` behind a dictionary on a failing reader (after fix D35 = ROB-6: the error of the
+    `PeekN(6)` that looks for `stream` is returned): the fault-free outcome or the reader's error -/
 theorem objAfterDictF (dd : List (Bytes × Obj)) (lat : Bool) (s2 : SB) (g2 : GoodF d e0 lat s2) :
-    RelF d e0 lat true T (objAfterDictBuf src sf dd s2) (objAfterDictM dd (view d s2)) := by
+    RelF d e0 lat false T (objAfterDictBuf src sf dd s2) (objAfterDictM dd (view d s2)) := by
   obtain ⟨gw, wout⟩ := wsF h hsf s2 g2
   unfold objAfterDictBuf objAfterDictM
   generalize skipWhiteSpace src sf s2 = q at gw wout
@@ -589,26 +584,17 @@ theorem objAfterDictF (dd : List (Bytes × Obj)) (lat : Bool) (s2 : SB) (g2 : Go
   obtain ⟨s4, buf6, err6, hp6, g4, v4, _, hwin, hout⟩ := peekF h 6 (by decide) s3 gw
   rw [hp6]
   simp only []
-  rcases hout with ⟨_, rfl⟩ | ⟨_, gl, hshort, _⟩
+  rcases hout with ⟨rfl, rfl⟩ | ⟨rfl, gl, _, _⟩
   · have : startsWith ((view d s3).take 6) kw_stream = startsWith (view d s3) kw_stream := by
       have := isPrefixOf_take kw_stream (view d s3) 6 (by decide)
       simpa [startsWith] using this
+    simp only []
     rw [this]
     split
-    · exact relF_weaken (fun _ _ hE => hE) (readStreamHeadF h s4 g4)
+    · exact readStreamHeadF h s4 g4
     · exact relF_ok s4 _ _ g4 v4
-  · have hns : startsWith buf6 kw_stream = false := by
-      cases hb : startsWith buf6 kw_stream with
-      | false => rfl
-      | true =>
-        have := C05robobj.isPrefixOf_len kw_stream buf6 hb
-        have h6 : kw_stream.length = 6 := by decide
-        omega
-    simp only [hns, Bool.false_eq_true, if_false]
-    by_cases hst : startsWith (view d s3) kw_stream = true
-    · exact relF_lat _ _ gl          -- finding ROB-6
-    · simp only [hst, if_false]
-      exact relF_ok s4 _ _ g4 v4
+  · simp only []
+    exact relF_flt s4 _ gl
 
 end
 
@@ -633,7 +619,7 @@ theorem refF_dictLoop (hm0 : e0 ≠ .malformed) (fuel : Nat) (ih : RefAtF d e0 s
   have RN := readName_fault h hsf s gs
   generalize readNameBuf src sf s = q at RN
   obtain ⟨s1, rn⟩ := q
-  rcases relF_cases RN with ⟨key, r, rfl, hm, g1, v1⟩ | ⟨e, rfl, hm, g1, hview⟩ | ⟨rfl, gl⟩ | ⟨_, gl⟩
+  rcases relF_cases RN with ⟨key, r, rfl, hm, g1, v1⟩ | ⟨e, rfl, hm, g1, hview⟩ | ⟨rfl, gl⟩ | ⟨_, rfl, gl, he, hn⟩
   · rw [hm]
     simp only []
     rw [← v1]
@@ -678,22 +664,28 @@ theorem refF_dictLoop (hm0 : e0 ≠ .malformed) (fuel : Nat) (ih : RefAtF d e0 s
       cases e0 <;> first | rfl | exact (hm0 rfl).elim
     simp only [hne, Bool.false_eq_true, if_false]
     exact relF_flt s1 _ gl
-  · cases rn with
-    | error e =>
+  · -- `ReadName` ended in the ROB-7 outcome: `IsMalformed(err)` holds, the loop is left and
+    -- `SkipString(">>")` runs on a state that stands on a byte other than `>`
+    simp only [beq_self_eq_true, if_true]
+    have K := skipstrF h [62, 62] (by decide) s1 gl
+    have hoff := skipString_latched_srcOff src [62, 62] (by decide) s1 e0 (gl.lat rfl)
+    generalize skipString src [62, 62] s1 = q at K hoff
+    obtain ⟨s2, e2⟩ := q
+    simp only [] at K hoff ⊢
+    obtain ⟨c, t, hc, hne⟩ := hn
+    have he2 : HashEdge d s2 := by
+      obtain ⟨p, p1, p2, p3⟩ := he
+      exact ⟨p, p1, by rw [hoff]; exact p2, by rw [hoff]; exact p3⟩
+    rcases K with ⟨k1, hpre, g2, v2⟩ | ⟨k1, hpre, g2, v2⟩ | ⟨k1, k2⟩
+    · rw [hc] at hpre
+      simp only [List.length_cons, List.length_nil, Nat.zero_add, List.take_succ_cons, List.cons.injEq] at hpre
+      exact absurd hpre.1 hne
+    · subst k1
       simp only []
-      split
-      · have K := skipstrF h [62, 62] (by decide) s1 gl
-        generalize skipString src [62, 62] s1 = q at K
-        obtain ⟨s2, e2⟩ := q
-        simp only [] at K ⊢
-        have g2 : GoodF d e0 true s2 := by
-          rcases K with ⟨_, _, k, _⟩ | ⟨_, _, k, _⟩ | ⟨_, k⟩ <;> exact k
-        cases e2 <;> exact relF_lat _ _ g2
-      · exact relF_lat _ _ gl
-    | ok key =>
+      exact relF_m s2 _ g2 he2 ⟨c, t, by rw [v2, hc], hne⟩
+    · subst k1
       simp only []
-      exact relF_lat _ _ (relF_goodT (dictAfterKeyF (mloop := readDictLoop fuel depth) (mobj := readObject fuel depth)
-        h hsf hloop hobj acc key true s1 gl))
+      exact relF_flt s2 _ k2
 
 theorem refF_dict (fuel : Nat) (ih : RefAtF d e0 src sf fuel) :
     ∀ lat depth s, GoodF d e0 lat s →
@@ -817,11 +809,11 @@ theorem refF_object (fuel : Nat) (ih : RefAtF d e0 src sf fuel) :
       rw [hv1] at R
       generalize readNameBuf src sf s1 = q at R
       obtain ⟨s2, res⟩ := q
-      rcases relF_cases R with ⟨v, r, rfl, hm, g2, v2⟩ | ⟨e, rfl, hm, g2, _⟩ | ⟨rfl, gl⟩ | ⟨_, gl⟩
+      rcases relF_cases R with ⟨v, r, rfl, hm, g2, v2⟩ | ⟨e, rfl, hm, g2, _⟩ | ⟨rfl, gl⟩ | ⟨_, rfl, gl, he, hn⟩
       · rw [hm]; simp only [Except.map]; exact relF_ok s2 _ _ g2 v2
       · rw [hm]; simp only [Except.map]; exact relF_err s2 _ g2 trivial
       · simp only []; exact relF_flt s2 _ gl
-      · cases res <;> exact relF_lat _ _ gl
+      · simp only []; exact relF_m s2 _ gl he hn
     simp only [h4, Bool.false_eq_true, if_false]
     by_cases h5 : (isDigit c || c == 43 || c == 45 || c == 46) = true
     · simp only [h5, if_true]
@@ -835,19 +827,15 @@ theorem refF_object (fuel : Nat) (ih : RefAtF d e0 src sf fuel) :
       rw [hv1] at RD
       generalize readDictBuf src sf fuel depth s1 = q at RD
       obtain ⟨s2, rd⟩ := q
-      rcases relF_cases RD with ⟨dd, r, rfl, hm, g2, v2⟩ | ⟨e, rfl, hm, g2, _⟩ | ⟨rfl, gl⟩ | ⟨_, gl⟩
+      rcases relF_cases RD with ⟨dd, r, rfl, hm, g2, v2⟩ | ⟨e, rfl, hm, g2, _⟩ | ⟨rfl, gl⟩ | ⟨_, rfl, gl, he, hn⟩
       · rw [hm]
         simp only []
         have := objAfterDictF h hsf dd lat s2 g2
         rw [v2] at this
-        exact this
+        exact relF_weaken (fun _ _ hE => hE) this
       · rw [hm]; simp only []; exact relF_err s2 _ g2 trivial
       · simp only []; exact relF_flt s2 _ gl
-      · cases rd with
-        | error e => simp only []; exact relF_lat _ _ gl
-        | ok dd =>
-          simp only []
-          exact relF_lat _ _ (relF_goodT (objAfterDictF h hsf dd true s2 gl))
+      · simp only []; exact relF_m s2 _ gl he hn
     simp only [h6, Bool.false_eq_true, if_false]
     by_cases h7 : (c == 40) = true
     · simp only [h7, if_true]
@@ -879,11 +867,11 @@ theorem refF_object (fuel : Nat) (ih : RefAtF d e0 src sf fuel) :
       rw [hadv1.2] at R
       generalize readArrayBuf src sf fuel depth (adv 1 s1) = q at R
       obtain ⟨s2, res⟩ := q
-      rcases relF_cases R with ⟨v, r, rfl, hm, g2, v2⟩ | ⟨e, rfl, hm, g2, _⟩ | ⟨rfl, gl⟩ | ⟨_, gl⟩
+      rcases relF_cases R with ⟨v, r, rfl, hm, g2, v2⟩ | ⟨e, rfl, hm, g2, _⟩ | ⟨rfl, gl⟩ | ⟨_, rfl, gl, he, hn⟩
       · rw [hm]; simp only [Except.map]; exact relF_ok s2 _ _ g2 v2
       · rw [hm]; simp only [Except.map]; exact relF_err s2 _ g2 trivial
       · simp only []; exact relF_flt s2 _ gl
-      · cases res <;> exact relF_lat _ _ gl
+      · simp only []; exact relF_m s2 _ gl he hn
     simp only [h9, Bool.false_eq_true, if_false]
     exact relF_err s1 _ g1 trivial
 
@@ -907,28 +895,65 @@ end
     * `RelA`: the outcome of the whole-input model `readObject` on the bytes not yet consumed — the
       same value, and the scanner stands at the model's remaining input; or the same error;
     * `FltB`: it returns the reader's error `e0` (and `scanner.err = e0`);
-    * `FltL`: the reader has failed and `scanner.err = e0`, but the result is something else.  The
-      proof reaches this case only behind the two `PeekN` calls of `scanner.go` whose error is
-      dropped: `tryHex` (`buf, _ := s.PeekN(3)`) and the look-ahead for `stream` behind a dictionary
-      (`buf, _ = s.PeekN(6)`); see `objAfterDictF`, `readNameLoopF`.  Every other failing read
-      ends in `FltB`.
+    * `FltM` (finding ROB-7, the only remaining place where `scanner.go` drops the error of a
+      `PeekN`: `buf, _ := s.PeekN(3)` in `tryHex`): it returns a MALFORMED-file error, the reader's
+      error is latched, and a `#` of the data lies among the last two bytes the reader delivered
+      before it failed (`HashEdge`: `d[p] = '#'`, `p < srcOff < p + 3`) — the escape could not be
+      looked at, the `#` was kept literally and the name ran into `maxNameBytes`.
 
-    In all three cases the state is coherent: no modelled Go panic, no exhausted loop fuel. -/
+    In all three cases the state is coherent: no modelled Go panic, no exhausted loop fuel.
+    (Before fix D35 = ROB-6 there was a fourth outcome: a stream's dictionary returned as a plain
+    dictionary with a nil error.) -/
 theorem readObject_fault {d : Bytes} {e0 : Err} {src : Source} (h : FaultyOver d e0 src) (hm0 : e0 ≠ .malformed)
     {sf : Nat} (hsf : d.length + 2 ≤ sf) (fuel depth : Nat) (lat : Bool) (s : SB) (gs : GoodF d e0 lat s) :
     RelF d e0 lat true T (readObjectBuf src sf fuel depth s) (readObject fuel depth (view d s)) :=
   (refF_all h hsf hm0 fuel).1 lat depth s gs
 
+/-- data without a `#`: the fault-free outcome or the reader's error, nothing else -/
+theorem readObject_fault_nohash {d : Bytes} {e0 : Err} {src : Source} (h : FaultyOver d e0 src) (hm0 : e0 ≠ .malformed)
+    {sf : Nat} (hsf : d.length + 2 ≤ sf) (fuel depth : Nat) (lat : Bool) (s : SB) (gs : GoodF d e0 lat s)
+    (hno : 35 ∉ d) :
+    RelA d e0 lat T (readObjectBuf src sf fuel depth s) (readObject fuel depth (view d s)) ∨
+    FltB d e0 (readObjectBuf src sf fuel depth s) := by
+  rcases readObject_fault h hm0 hsf fuel depth lat s gs with a | b | c
+  · exact Or.inl a
+  · exact Or.inr b
+  · obtain ⟨p, hp, _⟩ := c.2.2.2.1
+    exact absurd (List.mem_of_getElem? hp) hno
+
+/-- whenever `ReadObject` returns a value, it is the fault-free value at the fault-free position
+    (a wrong value is never returned, with or without a latched error) -/
+theorem readObject_fault_value {d : Bytes} {e0 : Err} {src : Source} (h : FaultyOver d e0 src) (hm0 : e0 ≠ .malformed)
+    {sf : Nat} (hsf : d.length + 2 ≤ sf) (fuel depth : Nat) (lat : Bool) (s : SB) (gs : GoodF d e0 lat s) (v : Obj)
+    (hv : (readObjectBuf src sf fuel depth s).2 = .ok v) :
+    ∃ rest, readObject fuel depth (view d s) = .ok (v, rest) ∧
+      view d (readObjectBuf src sf fuel depth s).1 = rest ∧ GoodF d e0 lat (readObjectBuf src sf fuel depth s).1 := by
+  rcases readObject_fault h hm0 hsf fuel depth lat s gs with a | b | c
+  · unfold RelA at a
+    generalize readObject fuel depth (view d s) = m at a
+    cases m with
+    | error e => simp only [] at a; rw [a.1] at hv; cases hv
+    | ok p =>
+      obtain ⟨v', rest⟩ := p
+      simp only [] at a
+      rw [a.1] at hv
+      cases hv
+      exact ⟨rest, rfl, a.2.2, a.2.1⟩
+  · rw [b.1] at hv; cases hv
+  · rw [c.2.1] at hv; cases hv
+
 /-- the same for a fresh scanner, spelled out: `ReadObject` returns what `parseObject d` says
-    (value and `CurrentPos`, or error), or the reader's error, or — behind a dropped `PeekN` error —
-    something else with the reader's error latched; never a panic, never a hang -/
+    (value and `CurrentPos`, or error), or the reader's error, or the ROB-7 outcome; never a panic,
+    never a hang -/
 theorem readObject_fault_fresh {d : Bytes} {e0 : Err} {src : Source} (h : FaultyOver d e0 src) (hm0 : e0 ≠ .malformed)
     {sf : Nat} (hsf : d.length + 2 ≤ sf) :
     ((readObjectBuf src sf (scanFuel d) 0 (SB.init 0)).1.panicked = false ∧
      (readObjectBuf src sf (scanFuel d) 0 (SB.init 0)).1.hang = false) ∧
     (observe (readObjectBuf src sf (scanFuel d) 0 (SB.init 0)) = lift d (parseObject d) ∨
      (readObjectBuf src sf (scanFuel d) 0 (SB.init 0)).2 = .error e0 ∨
-     (readObjectBuf src sf (scanFuel d) 0 (SB.init 0)).1.err = some e0) := by
+     ((readObjectBuf src sf (scanFuel d) 0 (SB.init 0)).2 = .error .malformed ∧
+      (readObjectBuf src sf (scanFuel d) 0 (SB.init 0)).1.err = some e0 ∧
+      HashEdge d (readObjectBuf src sf (scanFuel d) 0 (SB.init 0)).1)) := by
   have R := readObject_fault h hm0 hsf (scanFuel d) 0 false (SB.init 0) (goodF_init d e0)
   rw [view_init] at R
   unfold parseObject
@@ -953,7 +978,8 @@ theorem readObject_fault_fresh {d : Bytes} {e0 : Err} {src : Source} (h : Faulty
       congr 2
       omega
   · exact ⟨⟨b.2.nopanic, b.2.coh.nohang⟩, Or.inr (Or.inl b.1)⟩
-  · exact ⟨⟨c.2.nopanic, c.2.coh.nohang⟩, Or.inr (Or.inr (c.2.lat rfl))⟩
+  · obtain ⟨_, c1, c2, c3, _⟩ := c
+    exact ⟨⟨c2.nopanic, c2.coh.nohang⟩, Or.inr (Or.inr ⟨c1, c2.lat rfl, c3⟩)⟩
 
 /-- the contrapositive that callers can use: if no reader error is recorded in the scanner after
     `ReadObject`, then its outcome is exactly the fault-free one -/
@@ -964,9 +990,9 @@ theorem readObject_clean {d : Bytes} {e0 : Err} {src : Source} (h : FaultyOver d
   rcases readObject_fault h hm0 hsf fuel depth lat s gs with a | b | c
   · exact a
   · have := b.2.lat rfl; rw [hclean] at this; cases this
-  · have := c.2.lat rfl; rw [hclean] at this; cases this
+  · have := c.2.2.1.lat rfl; rw [hclean] at this; cases this
 
-/-! ## Non-vacuity: all three outcomes occur -/
+/-! ## Non-vacuity -/
 
 -- the reader fails in the middle of `exD` (3 bytes per call, from call 4 on): the reader's error
 example : (match (readObjectBuf (faultySrc exD 3 (.fromK 4 0) .io) (exD.length + 2) (scanFuel exD) 0 (SB.init 0)) with
@@ -984,14 +1010,22 @@ example : (match observe (readObjectBuf (faultySrc exD 3 (.fromK 30 0) .io) (exD
 /-- `<</A 1>>` newline `stream` newline -/
 def exStream : Bytes := [60, 60, 47, 65, 32, 49, 62, 62, 10, 115, 116, 114, 101, 97, 109, 10]
 
--- finding ROB-6: one byte per call, the reader fails inside the keyword `stream` (call 12):
--- `ReadObject` returns the plain dictionary and no error, where the fault-free run ends with the
--- malformed-file error of `ReadStreamData`; the error is latched.  The third alternative of
--- `readObject_fault` cannot be dropped.
-example : (match (readObjectBuf (faultySrc exStream 1 (.fromK 12 0) .io) (exStream.length + 2) (scanFuel exStream) 0 (SB.init 0)),
-      parseObject exStream with
-    | (s, .ok (.dict _)), .error .malformed => s.err == some .io
-    | _, _ => false) = true := by
+-- former finding ROB-6 (fixed as D35): one byte per call, the reader fails inside the keyword `stream`
+-- (call 12); `ReadObject` now returns the reader's error (before the fix: the plain dictionary and no error)
+example : (match (readObjectBuf (faultySrc exStream 1 (.fromK 12 0) .io) (exStream.length + 2) (scanFuel exStream) 0 (SB.init 0)) with
+    | (s, .error .io) => s.err == some .io
+    | _ => false) = true := by
+  decide +kernel
+
+/-- `/A#41` blank -/
+def exHash : Bytes := [47, 65, 35, 52, 49, 32]
+
+-- the dropped error of `tryHex` (ROB-7) below the cap: the reader fails behind `#4` (one byte per call, call 4);
+-- `HashEdge` holds (`#` at offset 2, `srcOff = 4`), the `#` is kept literally, and the next `PeekN(1)`
+-- reports the reader's error
+example : (match (readObjectBuf (faultySrc exHash 1 (.fromK 4 0) .io) (exHash.length + 2) (scanFuel exHash) 0 (SB.init 0)) with
+    | (s, .error .io) => s.srcOff == 4 && exHash[2]? == some 35
+    | _ => false) = true := by
   decide +kernel
 
 end PdfVerif.C19robobj
